@@ -66,18 +66,34 @@ def LossCause (s : Sys F) (ev : Ev) (i : Nat) (l l' : FLink F) : Prop :=
   | .hk now => HkReset now l l'
   | _ => False
 
+/-- A prefix that is not shorter than the list is the list. -/
+theorem take_eq_self_of_length_ge {α : Type} (k : Nat) (xs : List α) (h : ¬ (xs.take k).length < xs.length) :
+    xs.take k = xs := by
+  rw [List.length_take] at h
+  exact List.take_of_length_le (by omega)
+
 /-- Strengthen the cause of a `LinkFx`: the new cause has to be shown only when something really vanished
-(the queue with the appended items was non-empty, is empty now, and nothing went on the wire) — a "discard" of
-nothing is a "held". -/
+(the queue with the appended items was non-empty, is empty now, and FEWER datagrams went on the wire than it
+held - nothing, or a proper prefix) — a "discard" of nothing is a "held", a "discard" after the whole queue went
+out (a send that reported failure after the last datagram) is a "sent". -/
 theorem LinkFx.strengthen {c1 c2 : Prop} {app : List QItem} {l l' : FLink F} {b : List Bytes}
-    (h : LinkFx c1 app l l' b) (hc : l.queue ++ app ≠ [] → l'.queue = [] → b = [] → c1 → c2) :
+    (h : LinkFx c1 app l l' b)
+    (hc : l.queue ++ app ≠ [] → l'.queue = [] → b.length < (l.queue ++ app).length → c1 → c2) :
     LinkFx c2 app l l' b := by
   obtain ⟨h1, h2 | h2 | h2⟩ := h
   · exact ⟨h1, Or.inl h2⟩
   · exact ⟨h1, Or.inr (Or.inl h2)⟩
-  · by_cases hq : l.queue ++ app = []
-    · exact ⟨h1, Or.inl ⟨by rw [h2.1, hq], h2.2.1, Or.inl (List.append_eq_nil_iff.1 hq).2⟩⟩
-    · exact ⟨h1, Or.inr (Or.inr ⟨h2.1, h2.2.1, hc hq h2.1 h2.2.1 h2.2.2⟩)⟩
+  · obtain ⟨hq', ⟨k, hk⟩, hcause⟩ := h2
+    by_cases hq : l.queue ++ app = []
+    · refine ⟨h1, Or.inl ⟨by rw [hq', hq], ?_, Or.inl (List.append_eq_nil_iff.1 hq).2⟩⟩
+      rw [hk, hq]; simp
+    · by_cases hlen : b.length < (l.queue ++ app).length
+      · exact ⟨h1, Or.inr (Or.inr ⟨hq', ⟨k, hk⟩, hc hq hq' hlen hcause⟩)⟩
+      · refine ⟨h1, Or.inr (Or.inl ⟨hq', ?_⟩)⟩
+        rw [hk]
+        apply take_eq_self_of_length_ge
+        rw [← hk]
+        simpa [bytesOf] using hlen
 
 theorem linkFx_of_frame {cause : Prop} {l l' : FLink F} (hc : l'.core.connId = l.core.connId)
     (h : (l'.queue = l.queue ∧ l'.probeCounter = l.probeCounter) ∨ (l'.queue = [] ∧ cause)) :
@@ -85,12 +101,12 @@ theorem linkFx_of_frame {cause : Prop} {l l' : FLink F} (hc : l'.core.connId = l
   refine ⟨hc, ?_⟩
   rcases h with h | h
   · exact Or.inl ⟨by simp [h.1], rfl, Or.inl rfl⟩
-  · exact Or.inr (Or.inr ⟨h.1, rfl, h.2⟩)
+  · exact Or.inr (Or.inr ⟨h.1, ⟨0, rfl⟩, h.2⟩)
 
 /-- **Master theorem**: the effect of ANY event on EVERY link.  The number of links is constant; link
 `i` keeps its conn id; its queue grows by exactly `appended s ev i` at the end and then is either
 held, or put on the wire whole, in order, byte for byte (`dataWire` for its conn id), or discarded
-with a `LossCause`; the probe counter advances exactly when `consulted`. -/
+with a `LossCause` after at most a proper prefix of it went on the wire; the probe counter advances exactly when `consulted`. -/
 theorem step_link (s : Sys F) (ev : Ev) (hnd : (ids s.links).Nodup) (hnr : ev.isReload = false) :
     (step s ev).1.links.length = s.links.length ∧
     ∀ (i : Nat) (l : FLink F), s.links[i]? = some l → ∃ l', (step s ev).1.links[i]? = some l' ∧
@@ -111,7 +127,7 @@ theorem step_link (s : Sys F) (ev : Ev) (hnd : (ids s.links).Nodup) (hnr : ev.is
     obtain ⟨l', g1, g2, g3, g4⟩ := h7 i l hl
     refine ⟨l', g1, ?_, ?_, fun _ => Or.inr g3⟩
     · exact g2.strengthen fun hne _ hw hc =>
-        ⟨hc, flush_consumed s now i l hl (by simpa [appended] using hne) hw⟩
+        ⟨hc, flush_consumed s now i l hl (by simpa [appended] using hne) (by simpa [appended] using hw)⟩
     · unfold ProbeFx; rw [if_neg (by simp [consulted])]; exact Or.inl g4
   | uplink now cid data =>
     obtain ⟨h1, -, -, -, h5⟩ := uplink_links s cid data now
@@ -146,6 +162,9 @@ theorem step_link (s : Sys F) (ev : Ev) (hnd : (ids s.links).Nodup) (hnr : ev.is
     refine ⟨rfl, fun i l hl => ⟨l, hl, LinkFx.refl _ l, ?_, fun _ => Or.inl rfl⟩⟩
     unfold ProbeFx; rw [if_neg (by simp [consulted])]; exact Or.inl rfl
   | failNext cid =>
+    refine ⟨rfl, fun i l hl => ⟨l, hl, LinkFx.refl _ l, ?_, fun _ => Or.inl rfl⟩⟩
+    unfold ProbeFx; rw [if_neg (by simp [consulted])]; exact Or.inl rfl
+  | failAfter cid kfa =>
     refine ⟨rfl, fun i l hl => ⟨l, hl, LinkFx.refl _ l, ?_, fun _ => Or.inl rfl⟩⟩
     unfold ProbeFx; rw [if_neg (by simp [consulted])]; exact Or.inl rfl
   | failBind cid =>
